@@ -152,6 +152,20 @@ pub fn gen_sinks(rng: &mut Rng, tier: &Tier) -> Vec<Case> {
             cases.push(c);
         }
     }
+    // partial order: the order-only sinks at f64 with NaN among the samples (first, in the middle, bursts)
+    for kind in ["sink_min_f64", "sink_max_f64", "sink_bounds_f64"] {
+        for _ in 0..tier.n(60, 800) {
+            let len = rng.range(1, 9) as usize;
+            let as_filter = rng.chance(1, 2);
+            let mut c = vec![format!("new 1 {}", kind), "fin 1".to_string()];
+            for i in 0..len {
+                let v = if rng.chance(1, 4) || (i == 0 && rng.chance(1, 4)) { "nan".to_string() } else { rng.range(-5, 5).to_string() };
+                c.push(if as_filter { format!("ff 1 {}", v) } else { format!("sink 1 {}", v) });
+                c.push("fin 1".into());
+            }
+            cases.push(c);
+        }
+    }
     cases
 }
 
@@ -230,6 +244,36 @@ fn decorate(rng: &mut Rng, shape: &str, allow_or: bool) -> String {
 /// C01
 pub fn gen_pipes(rng: &mut Rng, tier: &Tier) -> Vec<Case> {
     let mut cases = Vec::new();
+    // statically typed nestings of zero-sized stages acting on state outside themselves (zpipes.rs)
+    for (name, _, _, role) in crate::zpipes::menu() {
+        for _ in 0..tier.n(3, 20) {
+            let mut c = vec![format!("new 1 {}", crate::zpipes::describe(name))];
+            match role {
+                'f' => {
+                    for _ in 0..rng.range(2, 7) {
+                        c.push(format!("pf 1 {}", rng.range(-5, 5)));
+                    }
+                }
+                'k' => {
+                    c.push("pfin 1".into());
+                    for _ in 0..rng.range(1, 6) {
+                        c.push(format!("psink 1 {}", rng.range(-5, 5)));
+                        if rng.chance(1, 3) {
+                            c.push("pfin 1".into());
+                        }
+                    }
+                    c.push("pfin 1".into());
+                }
+                _ => {
+                    for _ in 0..rng.range(2, 7) {
+                        c.push("ppull 1".into());
+                    }
+                }
+            }
+            c.push("plog 1".into());
+            cases.push(c);
+        }
+    }
     let reps = tier.n(4, 30);
     for k in 1..=6usize {
         let items: Vec<String> = (0..k).map(|i| format!("L{}", i)).collect();
